@@ -35,7 +35,7 @@ class C11(P.Property):
     real_stub = dict(deployment="real client Service + real server + websockets on the simulated loop/TCP; disk seam observing; no kills (C13)")
     assumptions = ["one service per run; operations before any create use an unknown sid"]
     probe_names = ["key_regen_refused", "encrypt_again_refused", "upload_before_create_refused", "search_before_upload_refused",
-                   "invalid_config_refused", "create_again_refused", "create_from_stored_config_refused", "reached_uploaded", "scheme_refused_input", "op_on_unknown_sid", "op_timed_out_under_stall", "service_deleted_on_server", "second_service_created"]
+                   "invalid_config_refused", "create_again_refused", "create_from_stored_config_refused", "reached_uploaded", "scheme_refused_input", "op_on_unknown_sid", "op_timed_out_under_stall", "service_deleted_on_server", "second_service_created", "via_commands", "create_with_taken_name_refused", "second_service_unusual_name"]
 
     def setup(self):
         world.setup_frontend()
@@ -68,7 +68,13 @@ class C11(P.Property):
             steps.append(st)
         knobs = dict(scheme=scheme, db=db, net=rng.choice([dict(lo=0.001, hi=0.05), dict(lo=0.001, hi=0.05, seg=3), dict(lo=0.01, hi=0.3, seg=2)]),
                      skew=rng.choice([1.0, 1.0, 0.5, 2.0]), bufsize=rng.choice([8192, 8192, 16]), gc_every=rng.choice([0, 0, 1, 2]),
-                     stall_step=(rng.randrange(len(steps)) if rng.random() < 0.12 else None))
+                     stall_step=(rng.randrange(len(steps)) if rng.random() < 0.12 else None),
+                     via_commands=rng.random() < 0.3)  # drive frontend/client/commands.py by service name, one process per command
+        if knobs["via_commands"]:
+            knobs.update(stall_step=None)
+            for st_ in steps:
+                if st_["op"] in ("create_stored", "create_other", "create_again"):
+                    st_["op"] = rng.choice(["create_taken_name", "create_taken_name", "create_weird_name"])
         return {"property": "C11", "seed": seed, "knobs": knobs, "steps": steps}
 
     def execute(self, plan):
@@ -110,6 +116,8 @@ class C11(P.Property):
         return c
 
     async def _scenario(self, run, plan, out, viol):
+        if plan["knobs"].get("via_commands"):
+            return await self._scenario_cli(run, plan, out, viol)
         knobs = plan["knobs"]
         scheme = knobs["scheme"]
         db = {unhx(k): [unhx(x) for x in v] for k, v in knobs["db"].items()}
@@ -349,6 +357,215 @@ class C11(P.Property):
                     return
         await asyncio.sleep(3)
 
+    async def _scenario_cli(self, run, plan, out, viol):
+        """the same histories through the documented command layer (frontend/client/commands.py, services addressed by name):
+        every command is its own client process with freshly imported command and alias modules; a command is refused iff it
+        prints an error line"""
+        import ast
+        import contextlib
+        import importlib
+        import io
+        import json
+        import os
+        knobs = plan["knobs"]
+        scheme = knobs["scheme"]
+        db = {unhx(k): [unhx(x) for x in v] for k, v in knobs["db"].items()}
+        L, cfg0 = fe.default_config(scheme, n_files=len({x for v in db.values() for x in v}))
+        probes, cover = out["probes"], out["cover"]
+        probes["via_commands"] = 1
+        indir = os.path.join(world.scratch_root(), "client-input")
+        os.makedirs(indir, exist_ok=True)
+        cfg_path, db_path = os.path.join(indir, "config.json"), os.path.join(indir, "db.json")
+        with open(cfg_path, "w") as f:
+            json.dump(cfg0, f)
+        with open(db_path, "w") as f:
+            json.dump({k.decode(): [x.hex() for x in v] for k, v in db.items()}, f)
+        run.boot_server()
+        await asyncio.sleep(0.01)
+        host = fe.ClientHost(run)
+        sname = "Svc-\u00c41 Main"  # (not lower-case, not ASCII: a name an alias layer might want to "normalise")
+        nproc = [0]
+        sid = None
+        F = dict(cc=False, cu=False, kc=False, de=False, du=False)
+        srv = 0
+        has_edb = False
+        keybytes = None
+
+        weird_done = [False]
+
+        async def command(fn_name, *a, **kw):
+            """one CLI invocation = one client process"""
+            nproc[0] += 1
+            host.restart("cli%d" % nproc[0])
+            buf = io.StringIO()
+
+            async def body():
+                import frontend.client.services.service_name_handler as snh
+                import frontend.client.commands as cmds
+                importlib.reload(snh)
+                cmds = importlib.reload(cmds)
+                with contextlib.redirect_stdout(buf):
+                    r = getattr(cmds, fn_name)(*a, **kw)
+                    if asyncio.iscoroutine(r):
+                        await r
+            r = await host.call(body)
+            text = buf.getvalue()
+            if r[0] == "died":
+                return "died", text
+            if r[0] == "exc":
+                return "raised:" + type(r[1]).__name__, text  # the command layer reports errors, it does not raise
+            return ("refused" if "error" in text.lower() else "accepted"), text
+
+        for si, st in enumerate(plan["steps"]):
+            op = st["op"]
+            run.maybe_gc(si)
+            before = fe.client_snapshot()
+            search_w = None
+            if op == "create" and sid is not None:
+                op = "create_taken_name"
+            if op == "create":
+                outcome, text = await command("create_service", cfg_path, sname)
+                exp = True
+            elif op == "create_taken_name":
+                if sid is None:
+                    continue
+                outcome, text = await command("create_service", cfg_path, sname)  # the name is taken: refused, nothing may change
+                exp = False
+            elif op == "create_weird_name":
+                # another service under a name that came from undecodable command-line bytes (surrogate escape): a valid str
+                if sid is None or weird_done[0]:
+                    continue
+                weird_done[0] = True
+                outcome, text = await command("create_service", cfg_path, "caf\udce9 \u20ac")
+                after = fe.client_snapshot()
+                new = [k[:-1] for k in after if k.endswith("/") and k not in before]
+                out["obs"].append(("-", "cli:create_weird_name", outcome))
+                if outcome != "accepted" or len(new) != 1 or new[0] == sid:
+                    viol.append(V("C11.order", "REFUSAL_MISMATCH", f"step {si}: creating a second service under another (unusual but valid) name was {outcome}: "
+                                                               f"{text.strip()[-100:]!r}", site="cli-create"))
+                    return
+                probes["second_service_unusual_name"] = 1
+                op = "create_other_name"  # falls through to the checks on the first service (flags, key, alias) below
+                exp = True
+            elif op == "create_bad":
+                badcfg = self.bad_config(cfg0, st.get("bad", "unknown_scheme"))
+                try:
+                    import schemes
+                    schemes.load_sse_module(badcfg["scheme"]).SSEConfig(copy.deepcopy(badcfg))
+                    continue
+                except Exception:
+                    pass
+                bad_path = os.path.join(indir, "bad.json")
+                with open(bad_path, "w") as f:
+                    json.dump(badcfg, f)
+                outcome, text = await command("create_service", bad_path, "bad-name-%d" % si)
+                exp = False
+            elif op == "gen_key":
+                outcome, text = await command("generate_key", sname=sname)
+                exp = F["cc"] and not F["kc"]
+            elif op == "encrypt":
+                outcome, text = await command("encrypt_database", db_path, sname=sname)
+                exp = F["cc"] and F["kc"] and not F["de"]
+                if exp and outcome == "refused":
+                    try:
+                        S_ = L.SSEScheme(self._disk_config(run, sid))
+                        S_.EDBSetup(L.SSEKey.deserialize(before[sid + "/key"], S_.config), copy.deepcopy(db))
+                    except Exception:
+                        probes["scheme_refused_input"] = 1
+                        exp = False
+            elif op in ("upload_config", "upload_index", "search"):
+                if sid is not None:
+                    F["cu"], F["du"] = srv >= 1, srv == 2
+                if op == "upload_config":
+                    exp = F["cc"] and not F["cu"]
+                    outcome, text = await command("upload_config", sname=sname)
+                elif op == "upload_index":
+                    exp = F["cu"] and F["kc"] and F["de"] and not F["du"] and has_edb
+                    outcome, text = await command("upload_encrypted_database", sname=sname)
+                else:
+                    search_w = unhx(st.get("w", hx(b"absent")))
+                    exp = F["du"]
+                    outcome, text = await command("search", search_w.decode(), "hex", sname=sname)
+                    if exp and "The result is" not in text and outcome == "accepted":
+                        outcome = "refused"  # nothing was delivered
+            else:
+                continue
+            fl = "".join(k for k in ("cc", "kc", "de", "cu", "du") if F[k]) or "-"
+            out["obs"].append((fl, "cli:" + op, outcome))
+            cover[f"cli:{fl}:{op}:{outcome}"] = 1
+            if outcome not in ("accepted", "refused"):
+                viol.append(V("C11.order", "REFUSAL_MISMATCH", f"step {si}: command {op} ended with {outcome} ({text[-120:]!r})", site="cli-" + op))
+                return
+            if (outcome == "accepted") != exp:
+                viol.append(V("C11.order", "REFUSAL_MISMATCH", f"step {si}: command {op} with flags [{fl}] was {outcome} ({text.strip()[-100:]!r}), reference model "
+                                                           f"says {'accepted' if exp else 'refused'}", site="cli-" + op))
+                return
+            after = fe.client_snapshot()
+            if outcome == "accepted":
+                if op == "create_other_name":
+                    pass
+                elif op == "create":
+                    new = [k[:-1] for k in after if k.endswith("/") and k not in before]
+                    if len(new) != 1:
+                        viol.append(V("C11.create", "STATE_MISMATCH", f"step {si}: create-service made directories {new}", site="cli-create"))
+                        return
+                    sid = new[0]
+                    F["cc"] = True
+                elif op == "gen_key":
+                    F["kc"] = True
+                    keybytes = after.get(sid + "/key")
+                elif op == "encrypt":
+                    F["de"] = True
+                    has_edb = True
+                elif op == "upload_config":
+                    F["cu"] = True
+                    srv = 1
+                elif op == "upload_index":
+                    F["du"] = True
+                    srv = 2
+                    has_edb = False
+                elif op == "search":
+                    try:
+                        lst = ast.literal_eval(text[text.index("The result is") + len("The result is"):].strip().rstrip("."))
+                        got = [bytes.fromhex(x) for x in lst]
+                    except Exception as e:
+                        viol.append(V("C11.search", "WRONG_RESULT", f"step {si}: unreadable search output {text[-100:]!r} ({e!r})", site="cli-search"))
+                        return
+                    want = db.get(search_w, [])
+                    if sorted(got) != sorted(want) or (scheme != "DP17.Pi" and got != want):
+                        viol.append(V("C11.search", "WRONG_RESULT", f"step {si}: search({search_w!r}) by name printed {len(got)} ids, expected {len(want)}", site="cli-search"))
+                        return
+                    probes["reached_uploaded"] = 1
+            else:
+                metakey = (sid + "/service_meta") if sid else None
+                if {k: v for k, v in after.items() if k != metakey} != {k: v for k, v in before.items() if k != metakey}:
+                    diff = sorted(k for k in set(before) | set(after) if before.get(k) != after.get(k))
+                    viol.append(V("C11.refusal", "STATE_MISMATCH", f"step {si}: refused command {op} changed the client's files: {[d[:24] for d in diff]}", site="cli-" + op))
+                    return
+                if op == "create_taken_name":
+                    probes["create_with_taken_name_refused"] = 1
+            if keybytes is not None and after.get(sid + "/key") != keybytes:
+                viol.append(V("C11.key", "KEY_CHANGED", f"step {si}: the key file changed during {op}", site="cli-" + op))
+                return
+            if sid:
+                m = after.get(sid + "/service_meta")
+                if not (isinstance(m, tuple) and m[0] == "meta" and isinstance(m[1], dict) and flags_of(m[1].get("state", -1)) == F):
+                    viol.append(V("C11.flags", "STATE_MISMATCH", f"step {si}: persisted flags {m!r:.60} differ from the reference model {F} after {op}", site="cli-" + op))
+                    return
+                # the name must still lead to the service -- asked the way a new process would ask (freshly imported alias module)
+                def resolve():
+                    import frontend.client.services.service_name_handler as snh
+                    return importlib.reload(snh).get_service_id_by_sname(sname)
+                nproc[0] += 1
+                host.restart("cli%d" % nproc[0])
+                rr = await host.call(resolve)
+                if rr[0] != "ok" or rr[1] != sid:
+                    viol.append(V("C11.alias", "STATE_MISMATCH", f"step {si}: after {op} the service name no longer leads to the service "
+                                                             f"({rr[1]!r:.80})", site="cli-" + op))
+                    return
+            await asyncio.sleep(st.get("gap", 0))
+        await asyncio.sleep(3)
+
     def _server_state(self, run, sid):
         try:
             with open(run.sse_path(sid, "service_meta"), "rb") as f:
@@ -366,7 +583,7 @@ class C11(P.Property):
         for key, val in (("skew", 1.0), ("bufsize", 8192), ("net", dict(lo=0.01, hi=0.01)), ("gc_every", 0), ("stall_step", None)):
             if k.get(key) != val:
                 yield dict(plan, knobs=dict(k, **{key: val}))
-        if k["scheme"] != "CJJ14.PiBas" and fe.id_size(fe.default_config(k["scheme"])[1]) == 8:
+        if k["scheme"] != "CJJ14.PiBas" and not k.get("via_commands") and fe.id_size(fe.default_config(k["scheme"])[1]) == 8:
             yield dict(plan, knobs=dict(k, scheme="CJJ14.PiBas"))
         steps = plan["steps"]
         for i, st in enumerate(steps):
